@@ -8,6 +8,8 @@
 //     PBE-SHA1-3DES, PBE-SHA1-RC2-40, HMAC-SHA1, BMPString) for the whole password x
 //     iterations x key x cipher grid with salt-length classes and layout variants.
 //     pkcs12.Decode / ToPEM must return exactly the key, the certificate and the attributes.
+//     2b. Bag-attribute shapes (friendlyName / localKeyId / Microsoft CSP name / unknown OID, empty,
+//     terminated and malformed values, order, placement), model-built and OpenSSL-built.
 //  3. Wrong passwords (that the model confirms to be wrong) => exactly ErrIncorrectPassword.
 //  4. Malformed files with a VALID MAC (bad padding of every kind, ciphertext length, MAC over
 //     the wrong octets, ...) => error.
@@ -122,6 +124,7 @@ type tcase struct {
 	pwc    pwClass
 	pfx    []byte
 	exp    expect
+	derive bool // expected ToPEM headers come from the reference decoder (bag-attribute shapes)
 }
 
 func sameKey(got any, want any) bool {
@@ -150,7 +153,10 @@ func pkcs8Inner(der []byte) []byte {
 }
 
 // checkBlocks compares ToPEM output with the expectation; it returns a failure description or "".
-func checkBlocks(blocks []*pem.Block, e expect) string {
+//
+// accept, when non-nil, lists for every block (file order) the header maps that are acceptable
+// (reference-derived); skipHeaders leaves the headers unchecked (malformed attribute values).
+func checkBlocks(blocks []*pem.Block, e expect, accept [][]map[string]string, skipHeaders bool) string {
 	type want struct {
 		isKey bool
 		der   []byte
@@ -201,6 +207,33 @@ func checkBlocks(blocks []*pem.Block, e expect) string {
 				return "ToPEM certificate block differs from the certificate"
 			}
 		}
+		if skipHeaders {
+			continue
+		}
+		if accept != nil {
+			gotH := b.Headers
+			if gotH == nil {
+				gotH = map[string]string{}
+			}
+			ok := false
+			for _, a := range accept[i] {
+				ok = ok || reflect.DeepEqual(gotH, a)
+			}
+			if !ok {
+				for _, k := range []string{"friendlyName", "localKeyId", "Microsoft CSP Name"} {
+					gv, gp := gotH[k]
+					wv, wp := accept[i][0][k]
+					if gp != wp {
+						return "ToPEM " + k + " header missing or unexpected"
+					}
+					if gv != wv && (len(accept[i]) < 2 || gv != accept[i][1][k]) {
+						return "ToPEM " + k + " header has a wrong value"
+					}
+				}
+				return "ToPEM returns unexpected headers"
+			}
+			continue
+		}
 		wantH := map[string]string{}
 		if w.attrs {
 			if e.name != "" {
@@ -233,6 +266,22 @@ func checkValid(c *vf.Ctx, t tcase) {
 		return map[string]any{"case": t.label, "password": t.pwc.pw, "pfx_hex": hex.EncodeToString(t.pfx), "info": extra}
 	}
 	nonBMP := t.pwc.name == "surrogate"
+	var accept [][]map[string]string
+	malformedAttr := false
+	if t.derive {
+		ref, rerr := p12ref.Parse(t.pfx, p12ref.BMPPassword(t.pwc.pw))
+		if rerr != nil || len(ref.Bags) != 2 {
+			c.Outcome("attribute file not understood by the reference decoder (skipped)")
+			return
+		}
+		for _, b := range ref.Bags {
+			plain, ok := b.Headers(false)
+			stripped, _ := b.Headers(true) // one trailing U+0000 may be taken as a terminator
+			malformedAttr = malformedAttr || !ok
+			accept = append(accept, []map[string]string{plain, stripped})
+		}
+		t.exp.keyFirst = ref.Bags[0].IsKey
+	}
 	var key any
 	var cert *x509.Certificate
 	var err error
@@ -248,6 +297,8 @@ func checkValid(c *vf.Ctx, t tcase) {
 	case err != nil && nonBMP:
 		// the property covers BMP characters; a non-BMP password may be refused, never mis-decoded
 		c.Outcome("Decode refuses the non-BMP password")
+	case err != nil && malformedAttr:
+		c.Outcome("Decode refuses a malformed attribute value")
 	case err != nil:
 		kind := "Decode fails on a valid PFX"
 		if err == pkcs12.ErrIncorrectPassword {
@@ -272,6 +323,8 @@ func checkValid(c *vf.Ctx, t tcase) {
 	switch {
 	case err != nil && nonBMP:
 		c.Outcome("ToPEM refuses the non-BMP password")
+	case err != nil && malformedAttr:
+		c.Outcome("ToPEM refuses a malformed attribute value")
 	case err != nil:
 		kind := "ToPEM fails on a valid PFX"
 		if err == pkcs12.ErrIncorrectPassword {
@@ -279,10 +332,14 @@ func checkValid(c *vf.Ctx, t tcase) {
 		}
 		c.Violation(kind+tag, detail(err.Error()))
 	default:
-		if why := checkBlocks(blocks, t.exp); why != "" {
+		if why := checkBlocks(blocks, t.exp, accept, malformedAttr); why != "" {
 			c.Violation(why+tag, detail(nil))
 		}
-		c.Outcome("ToPEM ok " + t.source)
+		if malformedAttr {
+			c.Outcome("ToPEM tolerates a malformed attribute value")
+		} else {
+			c.Outcome("ToPEM ok " + t.source)
+		}
 	}
 	if c.WantSample() && t.source == "model" && t.pwc.name == "cjk" {
 		c.Sample(map[string]any{"case": t.label, "password": t.pwc.pw, "pfx_len": len(t.pfx), "pfx_head_hex": hex.EncodeToString(t.pfx[:32])})
@@ -385,6 +442,8 @@ func run(c *vf.Ctx) {
 	c.Rule("(1) every embedded OpenSSL fixture: password{empty,a,ascii40,latin1,cjk,non-BMP} x key{rsa1024,rsa2048,p256} x {RC2-40+3DES, 3DES+3DES} + iteration/cipher variants; " +
 		"(2) model-encoded PFX grid: password{9 shapes incl. BMP length 64/66} x iterations{1,2,2048 (thorough +3,1000,4096)} x key{3} x cipher pair{RC2/3DES,3DES/3DES,RC2/RC2} x salt-length class{8,1,20,64,65 rotating; thorough all} " +
 		"x empty-password encodings{00 00, empty string} + layout variants{key first, cert unencrypted, attribute order, no attributes, non-ASCII name, extra certificate, mac/pbe iterations differ}; " +
+		"(2b) bag-attribute shapes, full product: friendlyName{absent,empty,a,latin1,>=U+8000,64 chars,terminated,terminator only,double terminator,odd length,one octet,no value,two values} x localKeyId{absent,empty,1,20 octets} x CSP name{absent,empty,text} x unknown attribute{absent,present} x order{normal,reversed} x placed on{key bag,cert bag,both}, " +
+		"plus OpenSSL-written files with -name \"\" / -CSP \"\" (embedded and live): Decode exact, ToPEM headers as derived by the reference decoder, error allowed only for malformed values; " +
 		"(3) wrong passwords confirmed wrong by the model for every case; (4) malformed-with-valid-MAC set; " +
 		"(5) faults: every offset x {0x00,0xFF,b^1} and every truncation of 2 files (thorough: 3 files, two of them with all 255 values); " +
 		"non-trivial = distinct (source,password class,iterations,key,ciphers,salt class,layout) decoded to the exact key+certificate, and distinct (file,offset) whose fault is detected; " +
@@ -411,6 +470,14 @@ func run(c *vf.Ctx) {
 			ex.name = "" // generated without -name; OpenSSL still writes localKeyID
 		}
 		cases = append(cases, tcase{label: n, source: "openssl", pwc: passwords[idx], pfx: mustRead(n), exp: ex})
+	}
+	for _, e := range entries {
+		n := e.Name()
+		if !strings.HasPrefix(n, "attr-") {
+			continue
+		}
+		km := keyByName(keys, strings.Split(n, "-")[1])
+		cases = append(cases, tcase{label: n, source: "openssl-attr", pwc: passwords[1], pfx: mustRead(n), exp: expect{km: km}, derive: true})
 	}
 	nFix := len(cases)
 	c.Set("openssl_fixtures", nFix)
@@ -507,17 +574,122 @@ func run(c *vf.Ctx) {
 		}
 	}
 	c.Set("model_files", len(cases)-nFix)
+	nModel := len(cases)
+	cases = append(cases, attrCases(c, keys)...)
+	c.Set("model_attribute_files", len(cases)-nModel)
 
 	c.ParallelFor(len(cases), func(i int) {
 		t := cases[i]
 		checkValid(c, t)
-		checkWrong(c, t)
+		if !t.derive {
+			checkWrong(c, t)
+		}
 		c.Nontrivial("valid/" + t.label)
 	})
 
 	malformed(c, keys)
 	faults(c, keys, cases)
 	liveOpenSSL(c, keys)
+}
+
+// attrCases: model-built files over the product of bag-attribute shapes. Expected ToPEM
+// headers are derived from the file by the reference decoder (p12ref.Bag.Headers); Decode must
+// not care about attributes at all.
+func attrCases(c *vf.Ctx, keys []keyMat) []tcase {
+	type shape struct {
+		name string
+		attr *p12ref.Attr // nil = attribute absent
+	}
+	bmp := func(oid []int, units []byte) *p12ref.Attr {
+		return &p12ref.Attr{OID: oid, Values: [][]byte{p12ref.BMPValue(units)}}
+	}
+	u := p12ref.UTF16BE
+	long := strings.Repeat("0123456789abcdef", 4) // 64 characters
+	names := []shape{
+		{"absent", nil},
+		{"empty", bmp(p12ref.OIDFriendlyName, nil)},
+		{"a", bmp(p12ref.OIDFriendlyName, u("a"))},
+		{"latin1", bmp(p12ref.OIDFriendlyName, u("é"))},
+		{"high", bmp(p12ref.OIDFriendlyName, u("한"))},
+		{"64chars", bmp(p12ref.OIDFriendlyName, u(long))},
+		{"terminated", bmp(p12ref.OIDFriendlyName, append(u("ab"), 0, 0))},
+		{"terminator-only", bmp(p12ref.OIDFriendlyName, []byte{0, 0})},
+		{"double-terminator", bmp(p12ref.OIDFriendlyName, append(u("ab"), 0, 0, 0, 0))},
+		{"odd-length(malformed)", bmp(p12ref.OIDFriendlyName, []byte{0, 0x61, 0})},
+		{"one-octet(malformed)", bmp(p12ref.OIDFriendlyName, []byte{0x61})},
+		{"no-value(malformed)", &p12ref.Attr{OID: p12ref.OIDFriendlyName}},
+		{"two-values(malformed)", &p12ref.Attr{OID: p12ref.OIDFriendlyName, Values: [][]byte{p12ref.BMPValue(u("a")), p12ref.BMPValue(u("b"))}}},
+	}
+	ids := []shape{
+		{"absent", nil},
+		{"empty", &p12ref.Attr{OID: p12ref.OIDLocalKeyID, Values: [][]byte{p12ref.OctetsValue(nil)}}},
+		{"1", &p12ref.Attr{OID: p12ref.OIDLocalKeyID, Values: [][]byte{p12ref.OctetsValue([]byte{0x0A})}}},
+		{"20", &p12ref.Attr{OID: p12ref.OIDLocalKeyID, Values: [][]byte{p12ref.OctetsValue(c.Bytes("attr-id", 0, 20))}}},
+	}
+	csps := []shape{
+		{"absent", nil},
+		{"empty", bmp(p12ref.OIDMSCSPName, nil)},
+		{"text", bmp(p12ref.OIDMSCSPName, u("Microsoft Enhanced Cryptographic Provider v1.0"))},
+	}
+	unknowns := []shape{
+		{"absent", nil},
+		// Oracle/Java trustedKeyUsage-style attribute: an OID value
+		{"present", &p12ref.Attr{OID: []int{2, 16, 840, 1, 113894, 746875, 1, 1}, Values: [][]byte{{0x06, 0x04, 0x55, 0x1D, 0x25, 0x00}}}},
+	}
+	pairs := []struct{ cert, key p12ref.PBE }{{p12ref.PBERC240, p12ref.PBE3DES}, {p12ref.PBE3DES, p12ref.PBE3DES}, {p12ref.PBERC240, p12ref.PBERC240}}
+	var out []tcase
+	n := 0
+	for _, fn := range names {
+		for _, id := range ids {
+			for _, csp := range csps {
+				for _, un := range unknowns {
+					for _, reversed := range []bool{false, true} {
+						var list []p12ref.Attr
+						for _, sh := range []shape{fn, id, csp, un} {
+							if sh.attr != nil {
+								list = append(list, *sh.attr)
+							}
+						}
+						if reversed {
+							if len(list) < 2 {
+								continue // same file as the unreversed one
+							}
+							for i, j := 0, len(list)-1; i < j; i, j = i+1, j-1 {
+								list[i], list[j] = list[j], list[i]
+							}
+						}
+						for _, place := range []string{"key", "cert", "both"} {
+							if list == nil && place != "both" {
+								continue
+							}
+							n++
+							km := &keys[2] // p256
+							if n%5 == 0 {
+								km = &keys[0] // rsa1024
+							}
+							pr := pairs[n%3]
+							pwc := passwords[1]
+							if n%7 == 0 {
+								pwc = passwords[0]
+							}
+							o := p12ref.Options{Password: pwc.pw, CertPBE: pr.cert, KeyPBE: pr.key, Iter: 1, MacIter: 1,
+								CertSalt: c.Bytes("acs", n, 8), KeySalt: c.Bytes("aks", n, 8), MacSalt: c.Bytes("ams", n, 8),
+								KeyPKCS8: km.pkcs8, CertDER: km.certDER, UseAttrLists: true}
+							if place != "cert" {
+								o.KeyAttrs = list
+							}
+							if place != "key" {
+								o.CertAttrs = list
+							}
+							label := fmt.Sprintf("model attrs on=%s name=%s keyid=%s csp=%s unknown=%s reversed=%v key=%s", place, fn.name, id.name, csp.name, un.name, reversed, km.name)
+							out = append(out, tcase{label: label, source: "model-attr", pwc: pwc, pfx: p12ref.Build(o), exp: expect{km: km}, derive: true})
+						}
+					}
+				}
+			}
+		}
+	}
+	return out
 }
 
 // ---------------------------------------------------------------------------
@@ -880,6 +1052,27 @@ func liveOpenSSL(c *vf.Ctx, keys []keyMat) {
 			}
 		}
 	}
+	// bag-attribute shapes written by OpenSSL itself (empty friendlyName / CSP name, ...)
+	for ai, extra := range [][]string{{"-name", ""}, {"-name", "n", "-CSP", ""}, {"-CSP", "Microsoft Base Cryptographic Provider v1.0"}, {"-name", "", "-CSP", ""}} {
+		km := &keys[(ai*2)%3]
+		kf, cf := filepath.Join(dir, km.name+".key"), filepath.Join(dir, km.name+".crt")
+		os.WriteFile(kf, km.pemKey, 0o600)
+		os.WriteFile(cf, km.pemCert, 0o600)
+		out := filepath.Join(dir, fmt.Sprintf("attr-%d.p12", ai))
+		args := append([]string{"pkcs12", "-export", "-legacy", "-inkey", kf, "-in", cf, "-passout", "pass:a", "-out", out}, extra...)
+		if o, err := runCmd(args...); err != nil {
+			failed++
+			c.Set("openssl_live_last_error", strings.TrimSpace(string(o)))
+			continue
+		}
+		pfx, err := os.ReadFile(out)
+		if err != nil {
+			failed++
+			continue
+		}
+		made++
+		cases = append(cases, tcase{label: "live attr " + strings.Join(extra, " "), source: "openssl-live-attr", pwc: passwords[1], pfx: pfx, exp: expect{km: km}, derive: true})
+	}
 	for _, t := range cases {
 		// the model must agree that this is a file for this key before the real code is blamed
 		f, merr := p12ref.Parse(t.pfx, p12ref.BMPPassword(t.pwc.pw))
@@ -888,7 +1081,9 @@ func liveOpenSSL(c *vf.Ctx, keys []keyMat) {
 			continue
 		}
 		checkValid(c, t)
-		checkWrong(c, t)
+		if !t.derive {
+			checkWrong(c, t)
+		}
 		c.Nontrivial("valid/" + t.label)
 	}
 	// the reverse direction, informational: OpenSSL reads what the model writes
